@@ -66,6 +66,55 @@ def render(pkts, v, kl=""):
                         second_if=tuple(v["second_if"]) if v.get("second_if") else None), False
 
 
+def _one_quic(job):
+    """a QUIC connection whose datagrams are captured 1 us apart (a burst), in containers of different timestamp resolution: the same
+    datagrams, the same export (how a reader turns ticks into a float must not decide which datagrams belong together)"""
+    from checks import c04
+    from harness.quicrun import build_conn
+    from wire.capture import Capture, udp_capture
+    from wire.l2l4 import mk_flow
+    seed, suite, step = job
+    try:
+        b = c04.std_quic_beh(suite)
+        A = lambda d, fr: dict(d=d, pkts=[dict(t="A", d=d, gen=0, frames=fr)])
+        S = lambda i: dict(ft="stream", a=i, b=0)
+        b["hist"] += [A("s", [S(10 + i)]) for i in range(12)] + [A("c", [S(30 + i)]) for i in range(6)]
+        for i, dg in enumerate(b["hist"]):
+            dg["sn"] = i + 1
+        c, payload = build_conn(b, seed, dict(pnlen={"c": 2, "s": 2}))
+        fl = mk_flow(0)
+        cap = udp_capture([(fl, g.d, g.payload, g) for g in c.dgrams], cap=Capture(ts0=1_700_000_000_000_000 + seed % 1000, step=step))
+    except Exception:
+        import traceback
+        return dict(machinery=traceback.format_exc()[-1500:])
+    kl = "\n".join(c.keylog) + "\n"
+    shas, bad = {}, []
+    vs = [dict(fmt="pcap", le=True), dict(fmt="pcap", le=False)] + [dict(fmt="pcapng", le=le, tsresol=r, tsoffset=o) for le in (True, False) for r in (None, 6, 9, 0x80 | 20, 0x80 | 30)
+                                                                      for o in (None, 3600)]
+    for v in vs:
+        if v["fmt"] == "pcap":
+            data, legacy = pcap_bytes(cap.pkts, le=v["le"]), True
+        else:
+            data, legacy = pcapng_bytes(cap.pkts, le=v["le"], tsresol=v["tsresol"], tsoffset=v["tsoffset"]), False
+        res = runner.run_inproc(data, kl, legacy=legacy)
+        if res.crashed or res.out is None:
+            bad.append((v, "run aborted: " + (res.exc or "no output").strip().splitlines()[-1]))
+            continue
+        o = Observation(res.out)
+        key = json.dumps([[p["sport"], p["dport"], p["payload"].hex() if isinstance(p["payload"], (bytes, bytearray)) else str(p["payload"])] for p in o.packets])
+        shas.setdefault(hashlib.sha256(key.encode()).hexdigest(), []).append(v)
+    if len(shas) > 1:
+        ref = max(shas.items(), key=lambda kv: len(kv[1]))[0]
+        for sha, vl in shas.items():
+            if sha != ref:
+                bad.append((vl[0], f"QUIC datagrams {step} us apart: the exported datagrams (payloads, order) differ from the majority of container variants ({len(vl)} variant(s))"))
+    return dict(bad=bad, n=len(vs), seed=seed, suite=suite, step=step)
+
+
+def rng_off(r_, le_):
+    return None if r_ in (None, 6) else (1000 if le_ else 0)
+
+
 def _one(job):
     sc, vs = job
     try:
@@ -88,6 +137,21 @@ def _one(job):
     for sha, vl in shas.items():
         if sha != ref:
             bad.append((vl[0], f"output differs from the majority of container variants ({len(vl)} variant(s) with this output, {len(shas[ref])} with the majority's)"))
+    # whole-second capture times: if_tsresol 0 (10^0) and 0x80 (2^0) are legal resolutions, next to explicit / absent microseconds
+    ps = [(t0 + 3_000_000 * i, fr) for i, (_t, fr) in enumerate(cap.pkts)]
+    sec = {}
+    for r_ in (None, 6, 0, 0x80, 3, 0x80 | 1):
+        for le_ in (True, False):
+            res = runner.run_inproc(pcapng_bytes(ps, le=le_, tsresol=r_, tsoffset=rng_off(r_, le_)), kl)
+            if res.crashed or res.out is None:
+                bad.append((dict(tsresol=r_, le=le_, whole_seconds=True), "run aborted: " + (res.exc or "no output").strip().splitlines()[-1]))
+            else:
+                sec.setdefault(hashlib.sha256(res.out).hexdigest(), []).append(dict(tsresol=r_, le=le_, whole_seconds=True))
+    if len(sec) > 1:
+        ref2 = max(sec.items(), key=lambda kv: len(kv[1]))[0]
+        for sha, vl in sec.items():
+            if sha != ref2:
+                bad.append((vl[0], f"whole-second capture times: output differs from the other resolutions ({len(vl)} variant(s) with this output)"))
     # sub-microsecond parts under ns resolution: everything within 1 us
     p2 = [((ts * 1000 + (i * 377) % 1000, 10 ** 9), fr) for i, (ts, fr) in enumerate(pkts)]
     res = runner.run_inproc(pcapng_bytes(p2, tsresol=9), kl)
@@ -126,6 +190,14 @@ def run(chk):
         chk.sample(dict(base=[(R.VNAME[c["ver"]], hex(c["suite"])) for c in res["sc"]["conns"]], variants=res["n"], distinct_outputs=res["outputs"]), limit=3)
         for v, why in res["bad"]:
             chk.violation(f"container {v}: {why}", dict(scenario=res["sc"], variant=v, why=why))
+    qj = [(rng.randrange(1 << 30), st, step) for st in (["1301", "1303"] if quick else ["1301", "1302", "1303", "1304"]) for step in (1, 2, 1009)]
+    for res in pool_map(_one_quic, qj, chunksize=1):
+        if "machinery" in res:
+            raise Exception("harness: " + res["machinery"])
+        chk.evaluations += res["n"]
+        chk.traces_validated += res["n"]
+        for v, why in res["bad"]:
+            chk.violation(f"container {v}: {why}", dict(quic=[res["seed"], res["suite"], res["step"]], variant=v, why=why))
     chk.distinct |= {json.dumps(v, sort_keys=True) for v in vs}
     chk.rule = ("container variants = legacy pcap (LE, BE; with -l) + pcapng {LE, BE} x if_tsresol {absent, 10^-3, 10^-6, 10^-9, 2^-10, "
                 "2^-20} x if_tsoffset {absent, 0, 3600} x {no extra blocks, NRB / ISB / custom at start / middle / end / spread, NRB before the IDB} x "
